@@ -1629,7 +1629,7 @@ class Normaliser:
                 self.inprogress.discard((path, qual))
                 self._function(path, qual, func, cls)
             for _ in range(80):
-                if not (self._forward_once(path, qual, func, known) or self._coalesce_once(path, qual, func, known | params)
+                if not (self._forward_once(path, qual, func, known) or self._views_once(path, qual, func, known | params) or self._coalesce_once(path, qual, func, known | params)
                         or self._coalesce_copy_in(path, qual, func, known | params) or self._alias_to_field(path, qual, func, known | params)):
                     break
             if len(self.log) == n0:
@@ -2522,6 +2522,57 @@ class Normaliser:
             done = True
         return done
 
+    def _views_once(self, path, qual, func, known):
+        """v = self.a[lo:hi]  (a basic-slice view of a numpy field, v a new local bound nowhere else);  v += E / reads of v
+        ->  self.a[lo:hi] += E / reads of self.a[lo:hi]: an in-place update through the view is the same update of the field"""
+        params = {x.arg for x in func.args.posonlyargs + func.args.args + func.args.kwonlyargs}
+        for blk in self._blocks(func):
+            for i, s in enumerate(blk):
+                if not (isinstance(s, ast.Assign) and len(s.targets) == 1 and isinstance(s.targets[0], ast.Name)):
+                    continue
+                v, R = s.targets[0].id, s.value
+                if v in known or v in params or not (_is_path(R) and self._is_numpy_view(R)):
+                    continue
+                stores = [n for n in ast.walk(func) if isinstance(n, ast.Name) and n.id == v and isinstance(n.ctx, (ast.Store, ast.Del))]
+                augs = [n for n in ast.walk(func) if isinstance(n, ast.AugAssign) and isinstance(n.target, ast.Name) and n.target.id == v]
+                if len(stores) != 1 + len(augs) or not augs:
+                    continue
+                later = blk[i + 1:]
+                inside = {id(n) for st in later for n in ast.walk(st)}
+                occ = [n for n in ast.walk(func) if isinstance(n, ast.Name) and n.id == v and n is not s.targets[0]]
+                if any(id(n) not in inside for n in occ):
+                    continue
+                root, attrs = root_and_attrs(R)
+                if any(isinstance(n, (ast.Lambda, ast.FunctionDef)) for st in later for n in ast.walk(st)):
+                    continue
+                # the field itself must not be rebound while the view is in use, nor the names the slice bounds read
+                names_R = {n.id for n in ast.walk(R) if isinstance(n, ast.Name)}
+                rebound = any((isinstance(n, ast.Attribute) and isinstance(n.ctx, (ast.Store, ast.Del)) and n.attr in attrs and not isinstance(
+                    next((p_ for p_ in ast.walk(func) if isinstance(p_, ast.Subscript) and p_.value is n), None), ast.Subscript))
+                    or (isinstance(n, ast.Name) and isinstance(n.ctx, (ast.Store, ast.Del)) and n.id in names_R) for st in later for n in ast.walk(st))
+                if rebound:
+                    continue
+
+                class T(ast.NodeTransformer):
+                    def visit_AugAssign(self, node):
+                        self.generic_visit(node)
+                        if isinstance(node.target, ast.Name) and node.target.id == v:
+                            t_ = copy.deepcopy(R)
+                            t_.ctx = ast.Store()
+                            node.target = ast.copy_location(t_, node.target)
+                        return node
+
+                    def visit_Name(self, node):
+                        if node.id == v and isinstance(node.ctx, ast.Load):
+                            return ast.copy_location(copy.deepcopy(R), node)
+                        return node
+                for j in range(i + 1, len(blk)):
+                    blk[j] = T().visit(blk[j])
+                del blk[i]
+                self.log.append(f'N4 {path}::{qual}: new local {v} (a view of {ast.unparse(R)}) replaced by the view expression')
+                return True
+        return False
+
     def _forward_once(self, path, qual, func, known):
         params = {x.arg for x in func.args.posonlyargs + func.args.args + func.args.kwonlyargs}
         bind_count: dict[str, int] = {}
@@ -2594,6 +2645,24 @@ class Normaliser:
         if isinstance(R, ast.IfExp) and len(uses) > 1:
             return False        # duplicating a conditional expression into several uses helps no rule
         pure = is_pure(R)
+        # an expression that creates a new mutable object (an array, a list) has an identity: written into several uses it would
+        # create several objects.  That is only the same when no use can alias or modify the object (arithmetic reads only).
+        if pure and len(uses) > 1 and any(isinstance(n, (ast.Call, ast.List, ast.ListComp, ast.Dict, ast.DictComp, ast.Set)) for n in [R]):
+            parents_ = {}
+            for st in later:
+                for n in ast.walk(st):
+                    for c in ast.iter_child_nodes(n):
+                        parents_[id(c)] = n
+            for u in uses:
+                par = parents_.get(id(u))
+                aliasing = (isinstance(par, (ast.Assign, ast.AnnAssign)) and getattr(par, 'value', None) is u) \
+                    or (isinstance(par, ast.Subscript) and par.value is u and not isinstance(par.slice, ast.Constant)
+                        and not (isinstance(par.ctx, ast.Load) and isinstance(parents_.get(id(par)), (ast.BinOp, ast.Compare, ast.UnaryOp)))) \
+                    or (isinstance(par, ast.AugAssign) and par.target is u) or isinstance(par, (ast.Return, ast.Tuple, ast.List, ast.Dict, ast.keyword, ast.Starred)) \
+                    or (isinstance(par, ast.Call) and any(a is u for a in par.args) and not _is_pure_call(par)) \
+                    or (isinstance(par, ast.Attribute) and par.value is u and isinstance(parents_.get(id(par)), ast.Call) and not _is_pure_call(parents_.get(id(par))))
+                if aliasing:
+                    return False
         if not pure:
             if len(uses) != 1 or last != 0:
                 return False
